@@ -208,7 +208,9 @@ fn one_program(lab: &Lab, ci: u64, prog: Arc<Program>, inputs: Inputs, kind: &st
     }
     for (iname, inp, tam) in instances {
         let mut prng = case_rng(lab.seed ^ 0x55, "C05.prove", ci * 1000 + iname.len() as u64);
-        let proved = common::prove(&compiled.prover, &prog, &inp, &tam, &mut prng, PlonkVersion::V3);
+        let pool = crate::util::POOL_SIZES[(ci as usize + iname.len() + lab.seed as usize) % crate::util::POOL_SIZES.len()];
+        ev.set_insert("prover_pools", pool);
+        let proved = crate::util::in_pool(pool, ci, || common::prove(&compiled.prover, &prog, &inp, &tam, &mut prng, PlonkVersion::V3));
         let Some((inst, _)) = proved.instance else {
             // circuit() itself failed (host-side guard) or panicked
             match &proved.result {
